@@ -9,8 +9,14 @@
 //! Stage B (`dec`/`recs`/`skip`): correspondence only, on illegal layouts and mutated / truncated streams,
 //!   raw record sequences and `Record::skip`.
 //! Stage C (`short`/`str`): `parse_short_string` / `parse_string` payloads (8-bit, 16-bit, empty, truncated).
+//! Stage D (`file`): one layout of every table is wrapped into a complete .xls (compound file written by
+//!   `verif_harness::xlsw`, the SST + CONTINUE records being the Lean encoder's) with LABELSST cells for every
+//!   string, inline LABEL cells, FORMULA + STRING results and sheet names taken from the table; read through
+//!   `Xls::new` / `sheet_names` / `worksheet_range` and compared with the stored text.
 use calamine::verif_hooks::xls as hooks;
+use calamine::{Data, Reader, Xls};
 use std::sync::mpsc;
+use verif_harness::xlsw::{rgce_int, Cached, CellV, XlsBook, XlsCell, XlsSheet};
 use verif_harness::{driver::Driver, guarded, report::Report, rng::Rng, Args};
 
 const MAX_FRAG: usize = 8224;
@@ -199,8 +205,8 @@ fn gen_len(rng: &mut Rng, giant_ok: bool) -> usize {
         10..=19 => 1,
         20..=27 => 2,
         28..=69 => rng.range(3, 20) as usize,
-        70..=87 => rng.range(21, 300) as usize,
-        88..=95 => rng.range(301, 5000) as usize,
+        70..=92 => rng.range(21, 300) as usize,
+        93..=95 => rng.range(301, 3000) as usize,
         _ => {
             if giant_ok {
                 *rng.pick(&[8224usize, 8225, 4111, 4112, 16448, 32766, 32767, 0, 0]) + rng.below(3) as usize
@@ -219,8 +225,8 @@ fn gen_table(rng: &mut Rng) -> Vec<Entry> {
         5..=8 => rng.range(5, 15),
         _ => rng.range(16, 40),
     } as usize;
-    let giant_table = rng.chance(1, 12);
-    let mut budget: usize = 120_000;
+    let giant_table = rng.chance(1, 30);
+    let mut budget: usize = 70_000;
     let mut t = vec![];
     for _ in 0..n {
         let mut len = gen_len(rng, giant_table);
@@ -230,10 +236,10 @@ fn gen_table(rng: &mut Rng) -> Vec<Entry> {
         budget -= len;
         let units = gen_units(rng, len);
         let runs = if rng.chance(1, 4) {
-            let k = match rng.below(10) {
-                0 => 0,
-                1..=7 => rng.range(1, 6),
-                8 => rng.range(7, 100),
+            let k = match rng.below(40) {
+                0..=3 => 0,
+                4..=34 => rng.range(1, 6),
+                35..=38 => rng.range(7, 100),
                 _ => rng.range(2000, 2100), // > 8224 bytes: rgRun itself must span records
             } as usize;
             Some(rng.bytes(4 * k))
@@ -241,10 +247,10 @@ fn gen_table(rng: &mut Rng) -> Vec<Entry> {
             None
         };
         let ext = if rng.chance(1, 4) {
-            let k = match rng.below(10) {
-                0 => 0,
-                1..=7 => rng.range(1, 40),
-                8 => rng.range(41, 600),
+            let k = match rng.below(40) {
+                0..=3 => 0,
+                4..=34 => rng.range(1, 40),
+                35..=38 => rng.range(41, 600),
                 _ => rng.range(8200, 9000),
             } as usize;
             Some(rng.bytes(k))
@@ -467,6 +473,7 @@ struct Outcome {
     /// (kind, sig, input, impl, model, expect)
     fails: Vec<(String, String, String, String, String, String)>,
     impl_out: String,
+    stream: Vec<u8>,
 }
 
 impl Outcome {
@@ -562,6 +569,7 @@ fn run_case(line: &str, drv: &mut Driver) -> Outcome {
     let expect = canon_strings(&texts);
     let imp = impl_sst(&stream);
     o.impl_out = imp.clone();
+    o.stream = stream.clone();
     let cuts: usize = ls.iter().map(|l| l.cuts.len() + l.run_cuts.len() + l.ext_cuts.len() + l.cut_before as usize).sum();
     let inner: usize = ls.iter().map(|l| l.cuts.len() + l.run_cuts.len() + l.ext_cuts.len()).sum();
     o.nontrivial = inner > 0 && !t.is_empty();
@@ -667,6 +675,115 @@ fn panic_site(stream: &[u8]) -> String {
     } else {
         "other".into()
     }
+}
+
+// ---------------------------------------------------------------- stage D: whole files
+
+fn split_payloads(stream: &[u8]) -> Vec<Vec<u8>> {
+    let mut v = vec![];
+    let mut p = 0usize;
+    while p + 4 <= stream.len() {
+        let n = u16::from_le_bytes([stream[p + 2], stream[p + 3]]) as usize;
+        v.push(stream[p + 4..(p + 4 + n).min(stream.len())].to_vec());
+        p += 4 + n;
+    }
+    v
+}
+
+/// a sheet name made of the first characters of `text` (no NUL: `parse_sheet_metadata` strips them on purpose),
+/// made unique by its index
+fn sheet_name(i: usize, text: &str) -> String {
+    let mut name = format!("{i}");
+    let mut units = name.len();
+    for c in text.chars() {
+        if c == '\0' {
+            continue;
+        }
+        if units + c.len_utf16() > 31 {
+            break;
+        }
+        units += c.len_utf16();
+        name.push(c);
+    }
+    name
+}
+
+/// `file <seed> <case line>`: the case's record stream inside a complete workbook
+fn run_file(seed: u64, case_line: &str, stream: &[u8]) -> Outcome {
+    let mut o = Outcome { input: format!("file {seed} {case_line}"), ..Default::default() };
+    let (_, t, _) = match parse_case(case_line) {
+        Some(x) => x,
+        None => {
+            o.fail("model_vs_spec", "bad-replay-line", "", "", "");
+            return o;
+        }
+    };
+    let mut rng = Rng::new(seed);
+    let texts: Vec<String> = t.iter().map(|e| String::from_utf16_lossy(&e.units)).collect();
+    let mut book = XlsBook::new();
+    book.sst_raw = Some(split_payloads(stream));
+    let nsheets = if texts.is_empty() { 1 } else { rng.range(1, 3) as usize };
+    let mut expect: Vec<(String, Vec<(u32, u32, String)>)> = vec![];
+    for si in 0..nsheets {
+        let name = sheet_name(si, texts.get(rng.below(texts.len().max(1) as u64) as usize).map(|s| s.as_str()).unwrap_or(""));
+        let mut sh = XlsSheet::new(&name);
+        let mut cells = vec![];
+        for (i, txt) in texts.iter().enumerate() {
+            if si == 0 || rng.chance(1, 2) {
+                sh.cells.push(XlsCell::new(i as u16, 0, CellV::LabelSst(i as u32)));
+                cells.push((i as u32, 0u32, txt.clone()));
+            }
+            let short = t[i].units.len() <= 2000;
+            if short && rng.chance(1, 3) {
+                sh.cells.push(XlsCell::new(i as u16, 1, CellV::Label(txt.clone(), None)));
+                cells.push((i as u32, 1, txt.clone()));
+            }
+            if short && !txt.is_empty() && rng.chance(1, 4) {
+                sh.cells.push(XlsCell::new(i as u16, 2, CellV::Formula { rgce: rgce_int(1), cached: Cached::Str(txt.clone()) }));
+                cells.push((i as u32, 2, txt.clone()));
+            }
+        }
+        book.sheets.push(sh);
+        expect.push((name, cells));
+    }
+    let bytes = book.to_bytes(&mut rng);
+    o.count("file.cases");
+    o.add("file.bytes", bytes.len() as u64);
+    o.add("file.sheets", nsheets as u64);
+    o.add("file.cells", expect.iter().map(|e| e.1.len() as u64).sum());
+    let res = guarded(|| -> Result<(), (String, String, String)> {
+        let mut wb: Xls<_> = Xls::new(std::io::Cursor::new(bytes)).map_err(|e| ("file_rejected".to_string(), format!("{e:?}"), "Ok".to_string()))?;
+        let names = wb.sheet_names();
+        let want: Vec<String> = expect.iter().map(|e| e.0.clone()).collect();
+        if names != want {
+            return Err(("file_sheet_names_differ".into(), format!("{names:?}"), format!("{want:?}")));
+        }
+        for (name, cells) in &expect {
+            let range = wb.worksheet_range(name).map_err(|e| ("file_sheet_rejected".to_string(), format!("{e:?}"), "Ok".to_string()))?;
+            for (r, c, txt) in cells {
+                let got = range.get_value((*r, *c));
+                // an empty shared string leaves no cell (parse_label_sst skips it on purpose): absent / Empty / "" all mean ""
+                let ok = matches!(got, Some(Data::String(s)) if s == txt)
+                    || (txt.is_empty() && matches!(got, None | Some(Data::Empty)));
+                if !ok {
+                    let kind = match c {
+                        0 => "file_labelsst_cell_differs",
+                        1 => "file_label_cell_differs",
+                        _ => "file_formula_string_differs",
+                    };
+                    return Err((kind.into(), format!("({r},{c}) {got:?}").chars().take(300).collect(), format!("String({txt:?})").chars().take(300).collect()));
+                }
+            }
+        }
+        Ok(())
+    });
+    o.nontrivial = !texts.is_empty();
+    match res {
+        Ok(Ok(())) => {}
+        Ok(Err((sig, got, want))) => o.fail("impl_vs_spec", &sig, &got, "(no file-level model)", &want),
+        Err(m) => o.fail("impl_vs_spec", "file_panics", &m, "(no file-level model)", "no panic"),
+    }
+    o
 }
 
 // ---------------------------------------------------------------- generators for the raw stages
@@ -906,6 +1023,8 @@ fn corpus() -> Vec<(String, Option<String>)> {
         // D31-b: empty CONTINUE right after a character split (malformed): SST "ab" cut after 'a', then an empty CONTINUE
         ("dec fc000c000100000001000000020000613c0000003c0002000062".into(), None),
     ];
+    // whole file: BOM-like units at segment starts in SST, LABEL and a sheet name
+    v.push(("file 1 case 1 6100fffe6200,~,~,0,1,1:1,-,-;fffe6100,~,~,0,1,-,-,-;-,~,~,0,1,-,-,-".into(), None));
     // known (C06 overlap): header fields cut by a record end, negative cstUnique
     v.push(("dec fc000b00010000000100000000000c".into(), None));
     v.push(("dec fc000c0001000000ffffffff00000000".into(), None));
@@ -944,7 +1063,12 @@ fn run_job(job: &Job, drv: &mut Driver) -> Vec<Outcome> {
 fn run_job_inner(job: &Job, drv: &mut Driver) -> Vec<Outcome> {
     match job {
         Job::Line(l, e) => {
-            if l.starts_with("case ") {
+            if let Some(rest) = l.strip_prefix("file ") {
+                let (seed, case_line) = rest.split_once(' ').unwrap_or(("0", ""));
+                let reply = drv.ask(case_line);
+                let stream = unhex(field(&reply, "bytes", "legal").unwrap_or("-"));
+                vec![run_file(seed.parse().unwrap_or(0), case_line, &stream)]
+            } else if l.starts_with("case ") {
                 vec![run_case(l, drv)]
             } else {
                 vec![run_raw(l, drv, e.as_deref())]
@@ -974,6 +1098,16 @@ fn run_job_inner(job: &Job, drv: &mut Driver) -> Vec<Outcome> {
                     }
                 }
                 outs.push(o);
+            }
+            // stage D: one of the 8 layouts inside a complete workbook
+            let k = rng.below(8) as usize;
+            if outs[k].fails.is_empty() && outs[k].counters.iter().any(|c| c.0 == "sst.legal_layouts") {
+                let line = outs[k].input.clone();
+                let fo = run_file(rng.next(), &line, &outs[k].stream);
+                outs.push(fo);
+            }
+            for o in outs.iter_mut() {
+                o.stream = vec![];
             }
             outs
         }
@@ -1030,7 +1164,7 @@ fn main() {
     let args = Args::parse();
     let mut rep = Report::new(
         "C12",
-        "stage A: random shared-string tables (0-40 strings; lengths 0,1,2,..,300, some to 5000, some 4111..32767 so that one \
+        "stage A: random shared-string tables (0-40 strings; lengths 0,1,2,..,300, some to 3000, in 1 table of 30 also 4111..32767 so that one \
          string spans several CONTINUE records; ASCII / Latin-1 / BMP / astral (surrogate pairs) / BOM-like and boundary \
          code points; optional rgRun (0..2100 runs) and ExtRst (0..9000 bytes)) x 8 layouts per table (forced-cuts-only wide, \
          forced-cuts-only compressed, 6 random: cut density 1/400..9/10 per character boundary / run / ext byte, breaks \
@@ -1039,6 +1173,9 @@ fn main() {
          the stream is produced by the Lean encoder and read by the real RecordIter+parse_sst (hook, code page 1200), by the \
          Lean model and compared with the stored text; the 8 results of a table must be identical. stage B (correspondence \
          only): illegal layouts, streams with one structural fault, raw record sequences for RecordIter, Record::skip. \
+         stage D: one layout of each table inside a complete .xls (xlsw writer, random compound-file layout): LABELSST cell per \
+         string, inline LABEL cells and FORMULA+STRING results for strings <= 2000 units, sheet names = first <= 30 units of a \
+         table string (NUL excluded), read through Xls::new / sheet_names / worksheet_range against the stored text. \
          stage C: parse_short_string/parse_string payloads (BIFF8 8/16-bit and BIFF5, empty, truncated) against the stored text \
          (not asserted: the empty BIFF5 short string, whose only reader is the sheet-name field). \
          non-trivial = a legal table with at least one break inside characters/rgRun/ExtRst, or a raw case the reader accepts; \
@@ -1097,7 +1234,7 @@ fn main() {
     drop(tx);
     let mut tables = 0u64;
     for outs in rx {
-        if outs.len() == 8 {
+        if outs.len() >= 8 {
             tables += 1;
         }
         for o in outs {
